@@ -26,6 +26,66 @@ def run(fx, rep, tier):
     rule_matedist(fx, rep, neg)
     rule_depth(fx, rep)
     rule_mate(fx, rep, neg)
+    rule_aspwin(fx, rep)
+
+
+def rule_aspwin(fx, rep):
+    """A score returned by the root search is exact (and its line the refreshed one) only when it lies strictly inside the
+    window that was searched: aspiration_search may return Ok(eval) only under alpha < eval < beta of the very window it
+    passed to negamax. Anything else is a bound whose principal variation is stale (seed C08-2)."""
+    asp = fx.one("aspiration::aspiration_search")
+    ncalls = asp.calls_to("negamax::negamax")
+    if len(ncalls) != 1:
+        rep.notes.append("C08-ASPWIN: aspiration_search does not contain exactly one root negamax call; clause not decided")
+        rep.rule("C08-ASPWIN", 0, 0, True, "not decided")
+        return
+    nbb, nt = ncalls[0]
+    alpha = deep_strip(asp.expr(nt["args"][1], expand_named=True, at=nbb))
+    beta = deep_strip(asp.expr(nt["args"][2], expand_named=True, at=nbb))
+
+    def is_score(e):
+        # the payload of the negamax call's Ok result
+        return bool(find_calls(e, "negamax::negamax"))
+    ok = True
+    n = 0
+    for bb, j, st in asp.stmts():
+        rv = st.get("rv")
+        if not (st["k"] == "assign" and st["lhs"]["l"] == 0 and not st["lhs"].get("p") and rv and rv["k"] == "agg" and rv.get("variant") == "Ok"):
+            continue
+        v = asp.expr(rv["ops"][0], expand_named=True, at=bb)
+        if not is_score(v):
+            continue
+        n += 1
+        above_alpha = below_beta = False
+        for (e, pol, w) in guard_conditions(asp, bb, expand_named=True):
+            co = cmp_op(e)
+            if not co or pol not in (True, False):
+                continue
+            op, a, b2 = co[0], deep_strip(co[1]), deep_strip(co[2])
+            # normalise to "score OP bound"
+            if is_score(b2) and not is_score(a):
+                a, b2 = b2, a
+                op = {"Lt": "Gt", "Gt": "Lt", "Le": "Ge", "Ge": "Le"}.get(op, op)
+            if not is_score(a):
+                continue
+            if not pol:
+                op = {"Lt": "Ge", "Ge": "Lt", "Gt": "Le", "Le": "Gt", "Eq": "Ne", "Ne": "Eq"}[op]
+            if op == "Gt" and b2 == alpha:
+                above_alpha = True
+            if op == "Lt" and b2 == beta:
+                below_beta = True
+        # a full-width search (no window) needs no test: both bounds are the type extremes on every path - not assumed here
+        good = above_alpha and below_beta
+        rep.obligation(good)
+        rep.sample({"rule": "C08-ASPWIN", "line": st.get("line"), "above_alpha": above_alpha, "below_beta": below_beta})
+        if not good:
+            ok = False
+            rep.violation("C08-ASPWIN", f"C08-ASPWIN/return/{n}", f"aspiration_search line {st.get('line')} returns the root score without requiring it to lie strictly inside the searched window "
+                          f"(alpha < score: {above_alpha}, score < beta: {below_beta}): a fail-high / fail-low score is only a bound and the root line was not refreshed, so a mate can be announced with a line that does not deliver it",
+                          {"fn": asp.name, "file": asp.file, "line": st.get("line")})
+    if n == 0:
+        rep.notes.append("C08-ASPWIN: no `Ok(score)` return of the root negamax result found in aspiration_search; clause not decided")
+    rep.rule("C08-ASPWIN", n, 0, ok, "root score returned only from inside the searched window")
 
 
 def is_pv_expr(neg, e):
@@ -391,6 +451,10 @@ NG = "src/engine/search/negamax.rs"
 ID = "src/engine/search/iterative_deepening.rs"
 PE = "src/engine/eval/player_eval.rs"
 MUTANTS = [
+    {"name": "aspiration returns a mate score from outside the window (seed C08-2)", "expect": "C08-ASPWIN",
+     "edits": [("src/engine/search/aspiration.rs", "        if eval <= window.alpha {\n            window.widen_down();", "        if eval.is_mate_in_moves().is_some() {\n            return Ok(eval);\n        }\n\n        if eval <= window.alpha {\n            window.widen_down();")]},
+    {"name": "aspiration accepts a score equal to beta", "expect": "C08-ASPWIN",
+     "edits": [("src/engine/search/aspiration.rs", "        } else if eval >= window.beta {", "        } else if eval > window.beta {")]},
     {"name": "hash cut-off allowed in PV nodes", "expect": "C08-PVGUARD/hash-entry",
      "edits": [(NG, "        if !is_root && !is_pv && tt_entry.depth >= depth {", "        if !is_root && tt_entry.depth >= depth {")]},
     {"name": "reverse futility / null move in PV nodes", "expect": "C08-PVGUARD/static-evaluation",
